@@ -150,7 +150,7 @@ func (t *tracer) topEvent(enter bool) {
 func (t *tracer) CaptureState(env *vm.EVM, pc uint64, op vm.OpCode, gas, cost uint64, scope *vm.ScopeContext, rData []byte, depth int, err error, _ common.Location) {
 	if debugTrace {
 		fmt.Fprintf(os.Stderr, "  state depth=%d pc=%d op=%s stack=%d err=%v self=%s\n", depth, pc, op, len(scope.Stack.Data()), err, t.w.nameOf(scope.Contract.Address()))
-		if op == vm.CALL {
+		if op == vm.CALL || op == vm.CALLCODE {
 			d := scope.Stack.Data()
 			fmt.Fprintf(os.Stderr, "    CALL gas=%s to=%x value=%s\n", d[len(d)-1].String(), d[len(d)-2].Bytes20(), d[len(d)-3].String())
 		}
@@ -175,7 +175,7 @@ func (t *tracer) CaptureState(env *vm.EVM, pc uint64, op vm.OpCode, gas, cost ui
 		if p := t.top(); p != nil && p.pending != nil && !p.pending.emitted {
 			o := p.pending.op
 			y := o.Target
-			if o.A == "create" {
+			if createOps[o.A] {
 				y = "N"
 			}
 			t.emit(&Step{A: o.A, X: p.self, Y: y, V: o.V, C: map[string]interface{}{"k": o.A, "enter": true}, Obs: t.obs(-1, -1)})
@@ -300,7 +300,7 @@ func endKind(f *rtFrame, st int64) (string, string) {
 
 var debugTrace = os.Getenv("EVMDRV_DEBUG") != ""
 
-var pops = map[string]int{"call": 7, "xfail": 7, "create": 3, "ETX": 10, "CONVERT": 4, "UNWRAP": 7, "CLAIM": 7}
+var pops = map[string]int{"call": 7, "ccall": 7, "dcall": 6, "scall": 6, "xfail": 7, "create": 3, "create2": 4, "ETX": 10, "CONVERT": 4, "UNWRAP": 7, "CLAIM": 7}
 
 func (t *tracer) after(f *rtFrame, scope *vm.ScopeContext) {
 	p := f.pending
@@ -328,9 +328,9 @@ func (t *tracer) after(f *rtFrame, scope *vm.ScopeContext) {
 	}
 	o := p.op
 	switch o.A {
-	case "call", "create", "xfail":
+	case "call", "dcall", "ccall", "scall", "create", "create2", "xfail":
 		y := o.Target
-		if o.A == "create" {
+		if createOps[o.A] {
 			y = "N"
 		}
 		if o.A == "xfail" {
